@@ -92,6 +92,7 @@ Extract(mode, class) ==
               [] class = "good"      -> {"value"}
               [] class = "empty_env" -> IF mode = "opt" THEN {"none", "missing"} ELSE {"missing"}
               [] class = "bad_json"  -> {"decode_err"}
+              [] class \in {"bad_json_u0", "bad_json_u1", "bad_json_u2", "bad_json_u3"} -> {"decode_err"}
               [] class = "bare_json" -> {"decode_err"}      \* typed modes decode the envelope first: data without one is undecodable
               [] class = "good_inst" -> {"decode_err", "missing", "none", "value"}   \* another envelope: not specified
               [] OTHER               -> {"decode_err"}
